@@ -139,9 +139,10 @@ theorem lift_local {s : Schema} {c : Catalog} (w : WF s) (he : c.Equiv (layout s
 theorem wf_updPtr {s : Schema} (w : WF s) {i : Nat} {p : Ptr} (hf : s.findPtr i = some p)
     (f : Ptr → Ptr) (hid : ∀ q, (f q).id = q.id) (hsrc : (f p).src = p.src)
     (hname : (f p).name = p.name ∨ s.nameUsed p.src (f p).name = false)
-    (hlp : ((f p).lprops.map (·.id)).Nodup) : WF (s.updPtr i f) := by
+    (hlp : ((f p).lprops.map (·.id)).Nodup)
+    (hln : ∀ lp ∈ (f p).lprops, lp.implicitName = false) : WF (s.updPtr i f) := by
   obtain ⟨hp, hpi⟩ := findPtr_some hf
-  refine ⟨?_, ?_, ?_, ?_⟩
+  refine ⟨?_, ?_, ?_, ?_, ?_⟩
   · have : (s.updPtr i f).ptrIds = s.ptrIds := by
       simp only [Schema.ptrIds, Schema.updPtr, List.map_map]
       apply List.map_congr_left
@@ -175,5 +176,9 @@ theorem wf_updPtr {s : Schema} (w : WF s) {i : Nat} {p : Ptr} (hf : s.findPtr i 
     rcases (mem_updPtr w hf f).mp ha with rfl | ⟨ha1, _⟩
     · exact hlp
     · exact w.lpids a ha1
+  · intro a ha
+    rcases (mem_updPtr w hf f).mp ha with rfl | ⟨ha1, _⟩
+    · exact hln
+    · exact w.lpnames a ha1
 
 end EdbVerif.Storage
